@@ -265,7 +265,7 @@ class ArraySchemaBackend(PandasSchemaBackend):
                 and duplicates.any()
             ):
                 passed = False
-                failure_cases = reshape_failure_cases(failed)
+                failure_cases = reshape_failure_cases(failed, ignore_na=False)
                 message = (
                     f"series '{check_obj.name}' contains duplicate "
                     f"values:\n{failed}"
